@@ -68,6 +68,17 @@ def Arg.InRange : Arg → Prop
   | .nullStr => True
   | .float _ => True
 
+/-- every rendering libc produces for this argument fits the library's 64-byte buffer
+    (vacuous for non-floating arguments); see C13 for the arguments that do not -/
+def Arg.FloatFits : Arg → Prop
+  | .float r => ∀ plus prec cls, 0 < (r plus prec cls).length ∧ (r plus prec cls).length < 64
+  | _ => True
+
+/-- the argument kinds the character class `c` applies to -/
+def Arg.IsIntegral : Arg → Bool
+  | .sint _ _ | .uint _ _ | .char _ | .wchar _ | .char8 _ | .char16 _ | .char32 _ => true
+  | _ => false
+
 /-! ### `strtol(s, &end, 10)` as glibc implements it in the "C" locale
 
   Skips `isspace` characters, takes an optional sign, then decimal digits; the value saturates
